@@ -27,7 +27,7 @@ PROFILE = {# raw doc actions of an OLD undo list replayed against a document tha
            "detach_summary": 1, "display_formula": 4, "add_rule": 4, "add_ref_column": 4, "reverse_column": 2,
            "rename_column": 3, "rename_table": 2, "duplicate_table": 1.5, "add_table": 4, "add_column": 5,
            "add_formula_column": 4, "modify_type": 3, "undo_earlier": 3, "malformed": 2, "add_record": 6,
-           "update_record": 6, "remove_record": 4, "ref_into_summary": 4, "remove_summary_widget": 4, "hide_field": 4}
+           "update_record": 6, "remove_record": 4, "ref_into_summary": 4, "remove_summary_widget": 4, "hide_field": 4, "summary_chain": 3}
 CFG = {"oracles": ("replica",), "n_bundles": 14, "profile": PROFILE, "hook": "gx.props.c09.install"}
 TIE_KINDS = ("meta-refs", "doc-P", "driver")
 
